@@ -145,6 +145,9 @@ def canon_impl(o) -> str:
         return "<< " + "".join("n:%s %s " % (C.hx(k), canon_impl(v)) for k, v in items) + ">>"
     if isinstance(o, PDFObjRef):
         return "R:%d" % o.objid
+    from pdfminer.pdftypes import PDFStream
+    if isinstance(o, PDFStream):
+        return "S:" + canon_impl(o.attrs) + " " + C.hx(o.rawdata or b"")
     return "?:" + type(o).__name__
 
 
@@ -734,9 +737,41 @@ def _run(ctx: C.Ctx) -> None:
         check_case(ctx, batch, make_case(rng, value, feats), "random", seen)
         if i % 4 == 0:
             check_mutant(ctx, batch, make_case(rng, value, feats, "stream"), rng)
+        if i % 10 == 0:
+            check_stream_object(ctx, batch, rng)
         if len(batch.req) > 100000:
             batch.flush()
     batch.flush()
+
+
+def check_stream_object(ctx: C.Ctx, batch: Batch, rng) -> None:
+    """The stream hand-off of PDFParser.do_keyword (tie only): `<< /Length n ... >> stream EOL data EOL endstream`."""
+    n = rng.choice([0, 1, 2, 5, 17, 40])
+    data = bytes(rng.choice(b"ab \r\n\x00endstream()<>/%") for _ in range(n))
+    if rng.random() < 0.15:
+        data += b"endstream"[: rng.randint(1, 9)] + b"x"
+    length = rng.choice([n, n, n, n, max(0, n - rng.randint(1, 3)), n + rng.randint(1, 12), None])
+    sp = Speller(rng, rng.sample(ALL_FEATURES, rng.randint(0, 5)))
+    items = []
+    if length is not None:
+        items.append((b"Length", ("int", length)))
+    for _ in range(rng.randint(0, 2)):
+        k = gen_key(rng)
+        if k and k != b"Length" and all(k != kk for kk, _ in items):
+            items.append((k, gen_scalar(rng)))
+    rng.shuffle(items)
+    head = sp.spell(("dict", items))
+    eol1 = rng.choice([b"\n", b"\r\n", b"\r", b" \n"])
+    eol2 = rng.choice([b"\n", b"\r\n", b"", b"\r"])
+    body = head + sp.gap(False) + b"stream" + eol1 + data + eol2 + b"endstream" + rng.choice([b"\n", b" ", b"\r\n"])
+    bufsiz = rng.choice(SIZES)
+    eol = rng.choice([b"\n", b"\r\n"])
+    got = read_getobj(body, bufsiz, eol, b"")
+    pdf, off = getobj_pdf(body, eol, b"")
+    ctx.case((body, "stream-object", bufsiz), True, branch="reader:getobj-streamobj",
+             sample={"object": repr(body), "bufsiz": bufsiz})
+    batch.add("model.getobj %d 5 %s" % (bufsiz, C.hx(pdf[off:])), "model.getobj",
+              {"object": body.hex(), "ascii": repr(body), "bufsiz": bufsiz, "eol": eol.hex()}, got)
 
 
 def check_mutant(ctx: C.Ctx, batch: Batch, case: Case, rng) -> None:
